@@ -1202,4 +1202,154 @@ theorem late_noTx_of_bound (c : Ctx) (now l : Int) (hs : Sil c l) (hinv : Inv c.
   | offline | passiveIdle | listenToken _ _ | activeIdle _ _ _ | useToken _ _ | awaitData _ _ | passToken _ _
   | checkTokenPass _ | awaitStatus _ => rw [hst] at hb; simp at hb
 
+/-! ### Unknown stamp: the first poll initialises it to `now` -/
+
+/-- The context with the stamp initialised to `now`. -/
+def stamped (c : Ctx) (now : Int) : Ctx := { c with s := { c.s with lastBusActivity := some now } }
+
+theorem getOrInsert_stamped (s : Station) (now : Int) (h : s.lastBusActivity = none) :
+    getOrInsertLast s now = getOrInsertLast { s with lastBusActivity := some now } now := by
+  unfold getOrInsertLast; rw [h]
+
+theorem waitSync_stamped (s : Station) (now : Int) (h : s.lastBusActivity = none) :
+    waitSyncPause s now = waitSyncPause { s with lastBusActivity := some now } now := by
+  unfold waitSyncPause; rw [getOrInsert_stamped s now h]
+
+theorem checkSlot_stamped (s : Station) (now : Int) (h : s.lastBusActivity = none) :
+    checkSlotExpired s now = checkSlotExpired { s with lastBusActivity := some now } now := by
+  unfold checkSlotExpired; rw [getOrInsert_stamped s now h]
+
+theorem markRx_stamped (s : Station) (now : Int) (h : s.lastBusActivity = none) :
+    markRx s now = markRx { s with lastBusActivity := some now } now := by
+  unfold markRx markBusActivity
+  simp [h]
+
+theorem doPassToken_stamped (c : Ctx) (now : Int) (h : c.s.lastBusActivity = none) :
+    doPassToken c now = doPassToken (stamped c now) now := by
+  unfold doPassToken stamped
+  simp only [waitSync_stamped c.s now h]
+
+theorem awaitGap_stamped (c : Ctx) (now : Int) (a : Nat) (h : c.s.lastBusActivity = none) :
+    awaitGapPollResponse c now a = awaitGapPollResponse (stamped c now) now a := by
+  unfold awaitGapPollResponse stamped
+  simp only [checkSlot_stamped c.s now h, markRx_stamped c.s now h]
+
+theorem doClaimToken_stamped (c : Ctx) (now : Int) (fuel : Nat) (h : c.s.lastBusActivity = none) :
+    doClaimToken c now fuel = doClaimToken (stamped c now) now fuel := by
+  cases fuel with
+  | zero => unfold doClaimToken; rfl
+  | succ fuel =>
+    have hag := awaitGap_stamped c now
+    unfold doClaimToken
+    unfold stamped at hag ⊢
+    simp only [waitSync_stamped c.s now h, hag _ h]
+
+theorem handleLost_stamped (c : Ctx) (now : Int) (h : c.s.lastBusActivity = none) :
+    handleLostToken c now = handleLostToken (stamped c now) now := by
+  unfold handleLostToken stamped
+  simp only [getOrInsert_stamped c.s now h]
+
+theorem doListenToken_stamped (c : Ctx) (now : Int) (h : c.s.lastBusActivity = none) :
+    doListenToken c now = doListenToken (stamped c now) now := by
+  have hh := handleLost_stamped c now h
+  unfold doListenToken
+  unfold stamped at hh ⊢
+  simp only [hh]
+
+theorem doActiveIdle_stamped (c : Ctx) (now : Int) (h : c.s.lastBusActivity = none) :
+    doActiveIdle c now = doActiveIdle (stamped c now) now := by
+  have hh := handleLost_stamped c now h
+  unfold doActiveIdle
+  unfold stamped at hh ⊢
+  simp only [hh]
+
+theorem holdUpdate_stamped (s : Station) (d : UseData) (now : Int) :
+    holdUpdate { s with lastBusActivity := some now } d = { (holdUpdate s d) with lastBusActivity := some now } := by
+  unfold holdUpdate; split <;> rfl
+
+theorem doUseToken_stamped (c : Ctx) (now : Int) (h : c.s.lastBusActivity = none) :
+    doUseToken c now = doUseToken (stamped c now) now := by
+  unfold doUseToken stamped
+  simp only [holdUpdate_stamped]
+  split
+  · rename_i d fcd hst
+    rw [waitSync_stamped (holdUpdate c.s d) now (by rw [(holdUpdate_keeps c.s d).1]; exact h)]
+  · rfl
+
+theorem doAwaitData_stamped (c : Ctx) (now : Int) (h : c.s.lastBusActivity = none) :
+    doAwaitDataResponse c now = doAwaitDataResponse (stamped c now) now := by
+  unfold doAwaitDataResponse stamped
+  simp only [checkSlot_stamped c.s now h, markRx_stamped c.s now h]
+
+theorem doCheckTokenPass_stamped (c : Ctx) (now : Int) (h : c.s.lastBusActivity = none) :
+    doCheckTokenPass c now = doCheckTokenPass (stamped c now) now := by
+  unfold doCheckTokenPass stamped
+  simp only [checkSlot_stamped c.s now h]
+
+theorem doAwaitStatus_stamped (c : Ctx) (now : Int) (h : c.s.lastBusActivity = none) :
+    doAwaitStatusResponse c now = doAwaitStatusResponse (stamped c now) now := by
+  have hag := awaitGap_stamped c now
+  unfold doAwaitStatusResponse
+  unfold stamped at hag ⊢
+  simp only [hag _ h]
+
+theorem dispatch_stamped (c : Ctx) (now : Int) (h : c.s.lastBusActivity = none) :
+    dispatch c now = dispatch (stamped c now) now := by
+  unfold dispatch
+  rw [← doListenToken_stamped c now h, ← doClaimToken_stamped c now 2 h, ← doUseToken_stamped c now h,
+    ← doAwaitData_stamped c now h, ← doPassToken_stamped c now h, ← doCheckTokenPass_stamped c now h,
+    ← doActiveIdle_stamped c now h, ← doAwaitStatus_stamped c now h]
+  rfl
+
+/-- A silent poll of a station that has not yet registered any bus activity (e.g. the first poll after
+`set_online`): it behaves as if the stamp were `now`; unless it transmits, the stamp is `now` afterwards. -/
+theorem silent_step_none (c : Ctx) (now : Int) (hinv : Inv c.s c.apps) (hon : c.s.online = true) (htx : c.tx = none)
+    (hrx : c.rx = []) (hl : c.s.lastBusActivity = none) :
+    ∃ c', pollInner c now false = .ok c' ∧ Inv c'.s c'.apps ∧ c'.apps.length = c.apps.length ∧
+      c'.s.online = true ∧ c'.s.p = c.s.p ∧ (c'.tx ≠ none ∨ Sil c' now) := by
+  obtain ⟨c', hc', hinv', hlen⟩ := pollInner_good c now false hinv htx
+  refine ⟨c', hc', hinv', hlen, ?_⟩
+  have main : ∀ c1 : Ctx, Inv c1.s c1.apps → c1.s.online = true → c1.tx = none → c1.rx = [] → c1.s.lastBusActivity = none →
+      c1.s.st ≠ .offline → pollInner c1 now false = .ok c' →
+      c'.s.online = true ∧ c'.s.p = c1.s.p ∧ (c'.tx ≠ none ∨ Sil c' now) := by
+    intro c1 hi1 ho1 ht1 hr1 hl1 hno1 h1
+    have hps : pollStart c1 = .ok c1 := by
+      unfold pollStart
+      cases hst : c1.s.st with
+      | offline => exact absurd hst hno1
+      | passiveIdle => exact absurd hst hi1.noPassive
+      | _ => rfl
+    unfold pollInner at h1
+    rw [if_neg (by simp [ho1]), hps] at h1
+    simp only [Res.bind] at h1
+    rw [if_neg (by simp [ongoing, hl1])] at h1
+    have : (upd c1 fun s => checkBusActivity s now c1.rx.length) = c1 := by
+      simp only [upd, hr1, List.length_nil, checkBus_nil]
+      cases c1; simp only at hr1; subst hr1; rfl
+    rw [this, dispatch_stamped c1 now hl1] at h1
+    have hs : Sil (stamped c1 now) now := ⟨ho1, ht1, hr1, rfl⟩
+    have hinvs : Inv (stamped c1 now).s (stamped c1 now).apps := hi1.congr rfl rfl rfl rfl rfl rfl
+    obtain ⟨a, b, d⟩ := dispatch_prog (stamped c1 now) now now hs hinvs c' h1
+    exact ⟨b, a, d.imp id (fun x => x.1)⟩
+  by_cases hoff : c.s.st = .offline
+  · have heq : pollInner c now false = pollInner { c with s := { c.s with st := .listenToken none 0 } } now false := by
+      unfold pollInner
+      simp only [hon, pollStart, hoff, tr, toListenToken]
+      rfl
+    rw [heq] at hc'
+    exact main { c with s := { c.s with st := .listenToken none 0 } }
+      (hinv.setSt hon (.listenToken none 0) (by simp) (by simp) (by simp)) hon htx hrx hl (by simp) hc'
+  · exact main c hinv hon htx hrx hl hoff hc'
+
+/-- Schedule form from an unknown stamp: the first poll `t0` fixes the stamp. -/
+theorem fresh_polls (s : Station) (apps : Apps) (t0 : Int) (rest : List Int) (hinv : Inv s apps) (hon : s.online = true)
+    (hl : s.lastBusActivity = none)
+    (hrest : ∀ (s' : Station) (apps' : Apps), Inv s' apps' → s'.online = true → s'.lastBusActivity = some t0 → s'.p = s.p →
+      TransmitsWithin s' apps' [] rest) :
+    TransmitsWithin s apps [] (t0 :: rest) := by
+  obtain ⟨c', hc', hinv', -, hon', hp', h⟩ := silent_step_none { s := s, apps := apps, rx := [] } t0 hinv hon rfl rfl hl
+  refine ⟨c', hc', h.imp id (fun hs' => ?_)⟩
+  rw [hs'.rx]
+  exact hrest c'.s c'.apps hinv' hon' hs'.last hp'
+
 end PV
